@@ -67,7 +67,7 @@ func genC18(t *simrt.Tape, tier string) Scenario {
 	sc.NIcs = t.Choose(7)
 	sc.NCli = 1 + t.Choose(3)
 	sc.NilTr = t.Bool(1, 4)
-	sc.ErrKind = []string{"plain", "eof", "unexpected-eof", "connreset"}[t.ChooseW([]int{3, 1, 1, 1})]
+	sc.ErrKind = []string{"plain", "eof", "unexpected-eof", "connreset", "timeout"}[t.ChooseW([]int{3, 1, 1, 1, 1})]
 	pick := func() []int {
 		if sc.NIcs == 0 {
 			return nil
@@ -203,7 +203,10 @@ func (sc *c18Scenario) Run(s *simrt.Sim) {
 	for i := range ics {
 		i := i
 		errs[i] = fmt.Errorf("interceptor %d refused", i)
-		if w := c18ErrOfKind(sc.ErrKind); w != nil {
+		if sc.ErrKind == "timeout" {
+			// an error value that itself says Timeout() (a token refresh that timed out, say): still the interceptor's error
+			errs[i] = c18TimeoutErr{msg: fmt.Sprintf("interceptor %d: token refresh timed out", i)}
+		} else if w := c18ErrOfKind(sc.ErrKind); w != nil {
 			errs[i] = fmt.Errorf("interceptor %d refused: %w", i, w)
 		}
 		f := network.Interceptor(func(req *http.Request) error {
@@ -730,6 +733,12 @@ func (sc *c18Scenario) Check(res *simrt.Result) []Violation {
 	}
 	return dedupe(vs)
 }
+
+type c18TimeoutErr struct{ msg string }
+
+func (e c18TimeoutErr) Error() string   { return e.msg }
+func (e c18TimeoutErr) Timeout() bool   { return true }
+func (e c18TimeoutErr) Temporary() bool { return true }
 
 func c18ErrOfKind(k string) error {
 	switch k {
